@@ -7,7 +7,7 @@ mkdir -p _work evidence replays coq/extracted
 python3 - <<'PY'
 import sys; sys.path.insert(0, "harness/py")
 import vlib
-vlib.build_model()
+[vlib.build_model(a) for a in sorted(set(f[8:-2] for f in __import__("os").listdir("coq") if f.startswith("Extract_") and f.endswith(".v")))]
 vlib.build_repo("hooks")
 import os
 names = sorted(f.rsplit(".",1)[0] for f in os.listdir("harness/cpp") if f.endswith(".cpp") or f.endswith(".c"))
